@@ -7,6 +7,8 @@ open C04AsmModel
 open C03Model
 open C04Model
 open C03LeafModel
+open C04XrefModel
+open C03SencPassModel
 
 let b01 b = if b then "1" else "0"
 let cls_of (r : 'a res) : string =
@@ -153,6 +155,59 @@ let () =
         let r = if cfg.[0] = 'S' then decode_file_sr o sh else decode_file_r o sh in
         let m = match r with Ok f -> "dec=ok|" ^ file_obs f | r -> "dec=" ^ cls_of r in
         if m = obs then Printf.printf "OK %s\n" id else Printf.printf "MISMATCH %s decode-loop model=%s\n" id m
+      | ["Y"; id; cfg; moov; tops; trafs; obs] ->
+        (* the second senc pass inside the two file loops: File grouping + the state of the picked senc of every traf of every moof *)
+        let nl s = if s = "" then [] else split_on ',' s in
+        let parse_trak t = match split_on '.' t with
+          | [id; e] ->
+            let tk = if id = "n" then None else Some (ni id) in
+            let ek = if e = "n" then ENone
+              else EAV (e.[0] = 'e', if S.length e = 1 then None else Some (ni (S.sub e 1 (S.length e - 1)))) in
+            (tk, ek)
+          | _ -> failwith "bad trak" in
+        let moovc = if moov = "-" then []
+          else (let b = S.sub moov 1 (S.length moov - 1) in if b = "" then [] else L.map parse_trak (split_on ';' b)) in
+        let parse_senc t = match split_on '.' t with
+          | [pf; off; fl; cnt; raw] ->
+            { se_piff = (pf = "1"); se_off = ni off; se_flags = ni fl; se_count = ni cnt; se_raw = bytes_of_hex raw }
+          | _ -> failwith "bad senc" in
+        let parse_xtraf t =
+          let fs = split_on '|' t in
+          let get c = L.find (fun f -> f.[0] = c) fs in
+          let h = get 'h' and a = get 'a' and b = get 'b' and g = get 'g' and s = get 's' in
+          let rest f = S.sub f 2 (S.length f - 2) in
+          { xt_tfhd = (if h = "h-" then None else Some (ni (S.sub h 1 (S.length h - 1))));
+            xt_saio = (if a = "a-" then None else Some (L.map n_of_hex (nl (rest a))));
+            xt_sbgp = (if b = "b-" then None else
+                         let es = L.map (fun e -> match split_on '.' e with [c; i] -> (ni c, ni i) | _ -> failwith "bad sbgp") (nl (S.sub b 4 (S.length b - 4))) in
+                         Some { sb_seig = (b.[2] = '1'); sb_counts = L.map fst es; sb_idx = L.map snd es });
+            xt_sgpd = (if g = "g-" then None else
+                         Some { sg_seig = (g.[2] = '1');
+                                sg_entries = L.map (fun e -> if e = "o" then SGOther else SGSeig (ni (S.sub e 1 (S.length e - 1)))) (nl (S.sub g 4 (S.length g - 4))) });
+            xt_sencs = (let r = rest s in if r = "" then [] else L.map parse_senc (split_on ';' r)) } in
+        let moofs = L.map (fun m -> if m = "" then [] else L.map parse_xtraf (split_on '/' m)) (split_on '&' trafs) in
+        let rec mk toks moofs = match toks with
+          | [] -> []
+          | tok :: r ->
+            let (sh, sz) = parse_shape tok in
+            (match sh, moofs with
+             | TMoof _, tl :: mr -> { xb_shape = sh; xb_size = sz; xb_moov = []; xb_trafs = tl } :: mk r mr
+             | TMoof _, [] -> failwith "moof without trafs"
+             | _, _ -> { xb_shape = sh; xb_size = sz; xb_moov = moovc; xb_trafs = [] } :: mk r moofs) in
+        let boxes = mk (split_on ';' tops) moofs in
+        let fl = Char.code cfg.[2] - 48 in
+        let o = { o_sr = (cfg.[0] = 'S'); o_lazy = (cfg.[1] = 'L'); o_ism = (fl land 1 = 1); o_start_on_moof = (fl land 2 = 2) } in
+        let r = if cfg.[0] = 'S' then decode_file_xsr o boxes else decode_file_xr o boxes in
+        let m = match r with
+          | Ok (f, states) ->
+            let one tl sts = S.concat "," (L.map2 (fun tr st ->
+                match picked_senc tr, st with
+                | None, _ -> "-"
+                | Some _, Some ((a, b), _) -> Printf.sprintf "0:%d:%d" (int_of_n a) (int_of_n b)
+                | Some s, None -> Printf.sprintf "%s:0:0" (b01 (se_unparsed s))) tl sts) in
+            "dec=ok|" ^ file_obs f ^ "|t=" ^ S.concat "&" (L.map2 one moofs states)
+          | r -> "dec=" ^ cls_of r in
+        if m = obs then Printf.printf "OK %s\n" id else Printf.printf "MISMATCH %s senc-pass model=%s\n" id m
       | ["B"; id; hex; o1; o2] ->
         let bs = bytes_of_hex hex in
         let m1 =
